@@ -819,10 +819,17 @@ func paramOrFree(v ssa.Value, col *ssa.Function, idx int) bool {
 				eachInstr(par, func(_ *ssa.BasicBlock, i ssa.Instruction) {
 					if mc, isMC := i.(*ssa.MakeClosure); isMC && mc.Fn == fn {
 						if al, ok := mc.Bindings[k].(*ssa.Alloc); ok {
+							n, all := 0, true
 							for _, r := range *al.Referrers() {
-								if s, ok := r.(*ssa.Store); ok && s.Addr == al && paramOrFree(s.Val, col, idx) {
-									res = true
+								if s, ok := r.(*ssa.Store); ok && s.Addr == al {
+									n++
+									if !paramOrFree(s.Val, col, idx) {
+										all = false
+									}
 								}
+							}
+							if n > 0 && all {
+								res = true
 							}
 						}
 					}
